@@ -45,14 +45,33 @@ def _worker(conn, harness_name, cfg, tier, repo, seed):
     try:
         os.environ["PYMOTO_VERIF"] = "1"
         sys.stdout = open(os.devnull, "w")      # pyMOTO prints (timing, finite_difference reports); results travel by pipe
-        seen = _trace_functions(repo)
+        if os.environ.get("SYMX_STACK_AT"):      # debugging aid: Python stack of the worker after N seconds (to stderr)
+            import faulthandler
+            faulthandler.dump_traceback_later(int(os.environ["SYMX_STACK_AT"]), repeat=False, file=sys.stderr)
+        seen = set() if os.environ.get("SYMX_PROFILE") else _trace_functions(repo)
         try:
             from harness.refs_merge import prime_inspect_cache
             prime_inspect_cache()      # speed only: pyMOTO's inspect.stack() in every Signal/Module constructor
         except Exception:
             pass
         h = importlib.import_module("harness." + harness_name)
-        res = h.run_item(cfg, tier)
+        if os.environ.get("SYMX_PROFILE"):
+            import cProfile
+            import signal
+            pr = cProfile.Profile()
+
+            def _stop(*a):
+                raise KeyboardInterrupt("profile budget")
+            signal.signal(signal.SIGALRM, _stop)
+            signal.alarm(int(os.environ.get("SYMX_PROFILE_SECS", "150")))
+            pr.enable()
+            try:
+                res = h.run_item(cfg, tier)
+            finally:
+                pr.disable()
+                pr.dump_stats(os.environ["SYMX_PROFILE"])
+        else:
+            res = h.run_item(cfg, tier)
         res["functions"] = sorted(seen)
         conn.send(("ok", res))
     except BaseException as e:
